@@ -753,6 +753,100 @@ func runControls(c *fw.Ctx) {
 	}
 }
 
+// runLibraryHistories: sequences over {L = avrotime.RegisterCodecs(), A = the application registers its own
+// builder and schema for time.Time}; the most recent one must govern time.Time at every position.
+func runLibraryHistories(c *fw.Ctx, depth int) {
+	type TTs struct {
+		T time.Time `json:"t"`
+	}
+	appSchema, _ := avro.SchemaFromString(`{"type":"long","logicalType":"app-epoch-seconds"}`)
+	appBuilds := 0
+	appBuilder := func(schema avro.Schema, typ reflect.Type, omit bool) (avro.Codec, error) {
+		appBuilds++
+		return appTimeCodec{}, nil
+	}
+	states, transitions := map[string]bool{}, 0
+	for _, h := range seqs([]int{0, 1}, depth) {
+		for i, op := range h {
+			if op == 0 {
+				reg.Again() // the library's RegisterCodecs (time and null)
+			} else {
+				avro.Register(gv.TimeT, appBuilder)
+				avro.RegisterSchema(gv.TimeT, appSchema)
+			}
+			transitions++
+			hist := ""
+			for _, o := range h[:i+1] {
+				hist += [...]string{"time.RegisterCodecs ", "app-registers-time.Time "}[o]
+			}
+			states[[...]string{"library", "application"}[op]] = true
+			c.Eval(1)
+			c.Nontrivial("libhist:" + hist)
+			desc := "time.Time after history [" + strings.TrimSpace(hist) + "]"
+			locus := "time.Time|registration-history"
+			c.Begin(locus, desc)
+			var sch avro.Schema
+			var err error
+			var out []byte
+			before := appBuilds
+			if c.Guard(locus, desc, desc, func() {
+				sch, err = avro.SchemaForType(TTs{})
+				if err != nil {
+					return
+				}
+				var codec avro.Codec
+				codec, err = sch.Codec(TTs{})
+				if err != nil {
+					return
+				}
+				v := TTs{T: time.Unix(1700000000, 0).UTC()}
+				w := avro.NewWriteBuf(nil)
+				codec.Write(w, unsafe.Pointer(&v))
+				out = w.Bytes()
+			}) {
+				continue
+			}
+			if err != nil {
+				c.Violation("registration-history-error|time.Time", fmt.Sprintf("%v — %s", err, desc), desc)
+				continue
+			}
+			ft := aschema.FromAvro(sch.Object.Fields[0].Type).Print(nil)
+			if op == 0 {
+				// the library's registration is the most recent: [null,string], RFC 3339 text, the application's builder untouched
+				if ft != `["null","string"]` || appBuilds != before || len(out) < 10 || out[0] != 2 {
+					c.Violation("superseded-registration-still-in-force|time.Time|library-should-govern", fmt.Sprintf("schema %s, application builder consulted %d times, bytes %x — %s", ft, appBuilds-before, out, desc), desc)
+				}
+			} else {
+				if !strings.Contains(ft, "app-epoch-seconds") || appBuilds == before || string(out) != string(ref.AppendLong(nil, 1700000000)) {
+					c.Violation("superseded-registration-still-in-force|time.Time|application-should-govern", fmt.Sprintf("schema %s, application builder consulted %d times, bytes %x — %s", ft, appBuilds-before, out, desc), desc)
+				}
+			}
+		}
+	}
+	reg.Again()
+	c.Count("states", int64(len(states)))
+	c.Count("transitions", int64(transitions))
+	c.Count("traces_validated_against_impl", int64(transitions))
+	c.Sample(map[string]interface{}{"kind": "library vs application registration of time.Time", "histories_up_to_length": depth, "transitions": transitions})
+}
+
+type appTimeCodec struct{ avro.Int64Codec }
+
+func (appTimeCodec) Read(r *avro.ReadBuf, p unsafe.Pointer) error {
+	var l int64
+	if err := (avro.Int64Codec{}).Read(r, unsafe.Pointer(&l)); err != nil {
+		return err
+	}
+	*(*time.Time)(p) = time.Unix(l, 0).UTC()
+	return nil
+}
+func (appTimeCodec) New(r *avro.ReadBuf) unsafe.Pointer { return r.Alloc(gv.TimeT) }
+func (appTimeCodec) Omit(p unsafe.Pointer) bool         { return false }
+func (appTimeCodec) Write(w *avro.WriteBuf, p unsafe.Pointer) {
+	l := (*time.Time)(p).Unix()
+	(avro.Int64Codec{}).Write(w, unsafe.Pointer(&l))
+}
+
 func libValues(ft, lt reflect.Type) []reflect.Value {
 	var leaf []reflect.Value
 	switch lt {
@@ -859,7 +953,7 @@ func init() {
 			if tier == "thorough" {
 				d = 4
 			}
-			return fmt.Sprintf("explicit-state exploration of registration histories on the real global registries, model = (current builder ∈ {none,f1,f2}, current schema ∈ {none,s1,s2}) with 'last registration wins', for custom types of four kinds (named int64, struct, named slice, named string) with instrumented codecs (invocation counters; builder f2 marks its wire data so the codec actually used is observable): (a) from the unregistered state every history of length<=3 over {Register(f1),Register(f2)} and over {RegisterSchema(s1),RegisterSchema(s2)}, each on a type nobody registered before (generic named types give 40 fresh types per kind); (b) every history of length<=%d over all four operations with the state carried over; after every operation the type is used at 11 positions {field,*T,**T,[]T,[]*T,map[string]T,map[string]*T,omitempty,struct{X T},[]struct{X T},map[string][]T}: SchemaForType must show the model's schema there, Schema.Codec must consult exactly the model's builder, every occurrence must go through that builder's codec (counters), bytes must decode under the generated schema with the reference decoder, values must round-trip at codec and file level; controls: never-registered look-alike types and the library's own time.Time / null.* registrations at the same positions; distinct_nontrivial counts distinct (type, history, position) uses", d)
+			return fmt.Sprintf("explicit-state exploration of registration histories on the real global registries, model = (current builder ∈ {none,f1,f2}, current schema ∈ {none,s1,s2}) with 'last registration wins', for custom types of four kinds (named int64, struct, named slice, named string) with instrumented codecs (invocation counters; builder f2 marks its wire data so the codec actually used is observable): (a) from the unregistered state every history of length<=3 over {Register(f1),Register(f2)} and over {RegisterSchema(s1),RegisterSchema(s2)}, each on a type nobody registered before (generic named types give 40 fresh types per kind); (b) every history of length<=%d over all four operations with the state carried over; after every operation the type is used at 11 positions {field,*T,**T,[]T,[]*T,map[string]T,map[string]*T,omitempty,struct{X T},[]struct{X T},map[string][]T}: SchemaForType must show the model's schema there, Schema.Codec must consult exactly the model's builder, every occurrence must go through that builder's codec (counters), bytes must decode under the generated schema with the reference decoder, values must round-trip at codec and file level; controls: never-registered look-alike types and the library's own time.Time / null.* registrations at the same positions; plus every history (one level deeper) over {time.RegisterCodecs(), the application registering its own builder and schema for time.Time}, after each step of which the most recent registration must govern time.Time; distinct_nontrivial counts distinct (type, history, position) uses", d)
 		},
 		Assumptions: []string{
 			"a registration cannot be undone, so model state is carried across histories within a worker; states with an unregistered component are only reachable on fresh types",
@@ -867,11 +961,15 @@ func init() {
 			"the two recorded C01 known findings (pointer to invalid wrapper, pointer to nil pointer) are normalised away here",
 		},
 		Init:     func(c *fw.Ctx) { reg.Init() },
-		NumCases: func(tier string) int { return 5 },
+		NumCases: func(tier string) int { return 6 },
 		RunCase: func(c *fw.Ctx, idx int) {
 			d := 3
 			if c.Tier == "thorough" {
 				d = 4
+			}
+			if idx == 5 {
+				runLibraryHistories(c, d+1)
+				return
 			}
 			if idx == 4 {
 				runControls(c)
